@@ -649,6 +649,40 @@ def extra_C10(rng, tier, st, cov):
     # instantiations of the standard templates themselves
     return _engine_extra('C10')(rng, tier, st, cov) + extra_C04(rng, tier, st, cov, pid='C10')
 
+# ---- counters narrower than the model's (C02, C06): directed search ------------------------------------
+def _width_extra(pid):
+    def f(rng, tier, st, cov):
+        import tie, re as _re
+        try:
+            text = open(os.path.join(tie.COQ, 'Translated.v')).read()
+        except OSError:
+            return []
+        m = _re.search(r'Definition counter_widths.*?:=\s*\[(.*?)\]\.', text, flags=_re.S)
+        rows = _re.findall(r'\("([^"]*)"%string, (\d+)\)', m.group(1)) if m else []
+        narrow = [(n, int(w)) for n, w in rows if int(w) < 64]
+        cov.setdefault('extra', {})['counter_widths'] = {'declarations': len(rows), 'narrower_than_64_bits': ['%s: %d' % x for x in narrow]}
+        if not narrow:
+            return []
+        bits = min([w for _, w in narrow if w > 0] or [24])
+        out_dir = os.path.join(tie.BUILD, 'tmp'); os.makedirs(out_dir, exist_ok=True)
+        exe = os.path.join(out_dir, 'bigcount_%d' % os.getpid())
+        rc, log_ = tie.sh(['g++', '-std=c++11', '-O2', '-I%s/include' % tie.REPO, os.path.join(tie.VERIF, 'harness', 'cxx', 'bigcount.cpp'), '-o', exe], timeout=600)
+        if rc != 0:
+            return [viol('the search for a count that a narrowed counter loses could not be built: ' + log_[-300:], [], tie=True)]
+        try:
+            p = subprocess.run(['timeout', '1500', exe, str(bits)], stdout=subprocess.PIPE, stderr=subprocess.PIPE, universal_newlines=True)
+        finally:
+            if os.path.exists(exe): os.remove(exe)
+        out = []
+        for l in p.stdout.split('\n'):
+            if l.startswith('FAIL '):
+                out.append(viol('%s is declared with %d bits: %s' % (', '.join(n for n, w in narrow if w == bits), bits, l[5:]), [], {'bigcount_bits': bits}))
+        cov['extra']['counter_widths']['search'] = p.stdout.strip()[-300:]
+        return out
+    return f
+extra_C02 = _width_extra('C02')
+extra_C06 = _width_extra('C06')
+
 # ---- group oracles on run observations (exact) -------------------------------------------------------
 def texts_of(out):
     return [x[1] for x in find_items(out, 'text')]
